@@ -362,6 +362,44 @@ func vfKinds(msg *ClientComMessage) (string, string, string) {
 	return k, id, topic
 }
 
+// facts about the state before the input, computed independently of the code under test, for the
+// model correspondence: v=ver set, u=logged in, r=root, a=session attached to the addressed topic,
+// l=topic loaded in the hub, s=subscription row of the acting user exists in the store
+func vfPre(s *Session, topic string) string {
+	b := func(x bool) string {
+		if x {
+			return "1"
+		}
+		return "0"
+	}
+	name := topic
+	switch {
+	case topic == "me":
+		name = s.uid.UserId()
+	case topic == "fnd":
+		name = s.uid.FndName()
+	case strings.HasPrefix(topic, "usr"):
+		if u2 := types.ParseUserId(topic); !u2.IsZero() && u2 != s.uid {
+			name = s.uid.P2PName(u2)
+		}
+	case strings.HasPrefix(topic, "chn"):
+		name = "grp" + topic[3:]
+	}
+	att, loaded, srow := false, false, false
+	if name != "" {
+		s.subsLock.RLock()
+		_, att = s.subs[name]
+		s.subsLock.RUnlock()
+		loaded = globals.hub.topicGet(name) != nil
+		if !s.uid.IsZero() {
+			if sub, err := store.Subs.Get(name, s.uid, false); err == nil && sub != nil {
+				srow = true
+			}
+		}
+	}
+	return "v" + b(s.ver != 0) + "u" + b(!s.uid.IsZero()) + "r" + b(s.authLvl == auth.LevelRoot) + "a" + b(att) + "l" + b(loaded) + "s" + b(srow)
+}
+
 func vfHexS(s string) string { return vHex([]byte(s)) }
 
 type vfResult struct {
@@ -549,26 +587,44 @@ func TestVerifFuzz(t *testing.T) {
 				t.Fatal("unknown session " + w[1])
 			}
 			raw := pop.subst(vUnhex(w[2]))
+			dead := false
+			select {
+			case <-vs.done:
+				// the server has stopped this session (evicted / own account deleted): in production the
+				// socket is closed by the write loop, nothing more can arrive on it
+				dead = true
+			default:
+			}
+			if dead {
+				emit("r %d %s dec=dead id=- topic=- st=- res=ok term=1 frames=- others=0", n, w[1])
+				continue
+			}
 			for _, o := range pop.sess {
 				o.takeAll()
 			}
 			var dec, id, topic string
 			var r vfResult
+			pre := ""
 			if w[0] == "in" {
 				dec, id, topic = vfDecode(raw)
+				pre = vfPre(vs.s, topic)
 				r = vfGuard(func() { vs.s.dispatchRaw(raw) })
 			} else {
 				var pm pbx.ClientMsg
 				if err := proto.Unmarshal(raw, &pm); err != nil {
 					// grpc-go fails stream.Recv(): the loop ends with an error, nothing reaches the server code
-					emit("r %d %s dec=pberr id=- topic=- res=ok term=0 frames=- others=0", n, w[1])
+					emit("r %d %s dec=pberr id=- topic=- st=- res=ok term=0 frames=- others=0", n, w[1])
 					continue
 				}
 				r = vfGuard(func() {
 					m := pbCliDeserialize(&pm)
 					dec, id, topic = vfKinds(m)
+					pre = vfPre(vs.s, topic)
 					vs.s.dispatch(m)
 				})
+				if pre == "" {
+					pre = vfPre(vs.s, "")
+				}
 				if dec == "" {
 					dec = "pbpanic"
 				}
@@ -597,7 +653,7 @@ func TestVerifFuzz(t *testing.T) {
 			if vs.s.terminating > 0 {
 				term = "1"
 			}
-			emit("r %d %s dec=%s id=%s topic=%s res=%s term=%s frames=%s others=%d", n, w[1], dec, vfHexS(id), vfHexS(topic), res, term,
+			emit("r %d %s dec=%s id=%s topic=%s st=%s res=%s term=%s frames=%s others=%d", n, w[1], dec, vfHexS(id), vfHexS(topic), pre, res, term,
 				vfFrames(fr, rawb), others)
 			if r.panicMsg != "" {
 				// in production the process is gone; start over so that later inputs see a sane server
